@@ -149,7 +149,48 @@ def one_header(rec, M, hid, gen, S, Mm, A):
         return
     padded = [False]
     mngrs = {}
+
+    def union_unrounded(agg, seen=None):
+        """does @agg hold (by value) a union whose largest member is not a multiple of the
+        union's alignment?  (gcc rounds the union's size up; known miasm defect class)"""
+        seen = set() if seen is None else seen
+        if id(agg) in seen:
+            return False
+        seen.add(id(agg))
+        if agg.kind == "union" and agg.tag:
+            gsize, galign = S[("u", hid, agg.tag)]
+            biggest = max(Mm[("u", hid, agg.tag, n)][1] for n, _ in M.flat_members(agg))
+            if biggest % galign:
+                return True
+        for m in agg.members:
+            if m.base[0] == "agg" and m.ptr == 0 and union_unrounded(m.base[1], seen):
+                return True
+            if m.base[0] == "agg" and m.ptr == 0 and m.base[1].kind == "union" and not m.base[1].tag:
+                # anonymous union: size from its members
+                sub = m.base[1]
+                sizes = [Mm[("u", hid, owner_of_anon(agg), n)][1] for n, _ in M.flat_members(sub)
+                         if ("u", hid, owner_of_anon(agg), n) in Mm]
+                aligns = [a for a in (1, 2, 4, 8, 16) if sizes and max(sizes) % a == 0]
+                # conservative: flag when the biggest member is not a multiple of 16/8/4/2 (some padding may be needed)
+                if sizes and max(sizes) % 2:
+                    return True
+        return False
+
+    def owner_of_anon(agg):
+        return agg.tag
     itag = " [names an aggregate defined inline elsewhere]" if h.inline_refs else ""
+    utag_cache = {}
+
+    def utag(agg, variant):
+        if variant != "u":
+            return ""
+        a = agg
+        while a.tag is None:
+            a = owner[id(a)]
+        if id(a) not in utag_cache:
+            utag_cache[id(a)] = " [holds a union whose largest member is not a multiple of its alignment]" \
+                if union_unrounded(a) else ""
+        return utag_cache[id(a)]
     if h.inline_refs:
         rec.count("feature:inline_tag_reference")
 
@@ -164,7 +205,7 @@ def one_header(rec, M, hid, gen, S, Mm, A):
                     what.append("size")
                 if objc.align != galign:
                     what.append("alignment")
-                rec.fail("%s %s differs from gcc (%s)%s" % (agg.kind, "/".join(what), vname, itag),
+                rec.fail("%s %s differs from gcc (%s)%s%s" % (agg.kind, "/".join(what), vname, itag, utag(agg, variant)),
                          "%s: miasm size %d align %d, gcc size %d align %d" % (
                              agg.ref(), objc.size, objc.align, gsize, galign), w)
         if not isinstance(objc, (ObjCStruct, ObjCUnion)):
@@ -192,10 +233,10 @@ def one_header(rec, M, hid, gen, S, Mm, A):
                     padded[0] = True
                 prev_end = max(prev_end, goff + gsz)
                 if off + agg_base.get(id(agg), 0) != goff:
-                    rec.fail("member offset differs from gcc (%s)%s" % (vname, itag),
+                    rec.fail("member offset differs from gcc (%s)%s%s" % (vname, itag, utag(agg, variant)),
                              "%s.%s: miasm %d, gcc %d" % (owner_tag(agg), name, off + agg_base.get(id(agg), 0), goff), w)
                 elif fobjc.size != gsz or size != gsz:
-                    rec.fail("member size differs from gcc (%s)%s" % (vname, itag),
+                    rec.fail("member size differs from gcc (%s)%s%s" % (vname, itag, utag(agg, variant)),
                              "%s.%s: miasm %d/%d, gcc %d" % (owner_tag(agg), name, fobjc.size, size, gsz), w)
             if m.how == "inline":
                 sub = fobjc
@@ -246,12 +287,12 @@ def one_header(rec, M, hid, gen, S, Mm, A):
                 objc = mngr.get_objc(cty)
                 gsize, galign = S[(variant, hid, agg.tag)]
                 if objc.size != gsize:
-                    rec.fail("aggregate defined inline inside another is not known by its tag afterwards (%s)" % vname,
-                             "%s: get_objc gives size %d, gcc %d" % (agg.ref(), objc.size, gsize),
+                    rec.fail("aggregate defined inline inside another is not known by its tag afterwards",
+                             "%s (%s): get_objc gives size %d, gcc %d" % (agg.ref(), vname, objc.size, gsize),
                              dict(wit, aggregate=agg.ref()))
             except Exception as exc:
-                rec.fail("aggregate defined inline inside another is not known by its tag afterwards (%s)" % vname,
-                         "%s: get_objc raises %r" % (agg.ref(), exc), dict(wit, aggregate=agg.ref()))
+                rec.fail("aggregate defined inline inside another is not known by its tag afterwards",
+                         "%s (%s): get_objc raises %r" % (agg.ref(), vname, exc), dict(wit, aggregate=agg.ref()))
     if padded[0]:
         rec.count("feature:padding_needed")
     accesses(rec, M, hid, gen, mngrs["u"], S, Mm, A, wit)
@@ -270,7 +311,13 @@ def accesses(rec, M, hid, gen, mngr, S, Mm, A, wit):
         rec.distinct(hid + ch.c)
         root = ch.root
         feats = sorted(ch.features - {"unary deref"})
-        ftag = (" [%s]" % ", ".join(feats)) if feats else ""
+        primary = None
+        for f in ("(*p).m on a struct pointer", "p[i].m on a struct pointer", "anonymous member",
+                  "element of an array of unions", "& of an array element"):
+            if f in ch.features:
+                primary = f
+                break
+        ftag = (" [%s]" % primary) if primary else ""
         w = dict(wit, access=ch.c, root=root.ref(), features=sorted(ch.features))
         if root.tag not in handlers:
             try:
@@ -305,47 +352,62 @@ def accesses(rec, M, hid, gen, mngr, S, Mm, A, wit):
         else:
             want = ExprMem(addr, size * 8)
         want = expr_simp(want)
+        def afail(key, what):
+            if h.inline_refs:
+                rec.fail("access in a header that names an aggregate defined inline elsewhere",
+                         "%s: %s" % (key, what), w)
+            elif primary:
+                rec.fail("access form not handled: %s" % primary, "%s: %s" % (key, what), w)
+            else:
+                rec.fail(key, what, w)
         try:
             got, ctype = hd.c_to_expr_and_type(ch.c)
         except Exception as exc:
-            rec.fail("c_to_expr raises %s at %s%s" % (type(exc).__name__, _frame(exc), ftag),
-                     "%r for %s" % (exc, ch.c), w)
+            afail("c_to_expr raises %s at %s" % (type(exc).__name__, _frame(exc)),
+                  "%r for %s" % (exc, ch.c))
             continue
         try:
             gots = expr_simp(got)
         except Exception as exc:
-            rec.fail("c_to_expr gives an expression expr_simp rejects (%s)%s" % (type(exc).__name__, ftag),
-                     "%s: %s: %r" % (ch.c, got, exc), w)
+            afail("c_to_expr gives an expression expr_simp rejects (%s)" % type(exc).__name__,
+                  "%s: %s: %r" % (ch.c, got, exc))
             continue
         rec.count("access:c_to_expr_compared")
         if gots != want:
-            rec.fail("c_to_expr differs from gcc's address arithmetic%s" % ftag,
-                     "%s: miasm %s, expected %s" % (ch.c, gots, want), w)
+            afail("c_to_expr differs from gcc's address arithmetic",
+                  "%s: miasm %s, expected %s" % (ch.c, gots, want))
             continue
         if not (ch.addr_of or fdims) and ctype.size != size:
-            rec.fail("c_to_type size differs from gcc%s" % ftag,
-                     "%s: type %s size %d, gcc %d" % (ch.c, ctype, ctype.size, size), w)
+            afail("c_to_type size differs from gcc",
+                  "%s: type %s size %d, gcc %d" % (ch.c, ctype, ctype.size, size))
             continue
         # and back
         try:
             back = hd.expr_to_c_and_types(gots)
         except Exception as exc:
-            rec.fail("expr_to_c raises %s at %s%s" % (type(exc).__name__, _frame(exc), ftag),
-                     "%r for %s (from %s)" % (exc, gots, ch.c), w)
+            afail("expr_to_c raises %s at %s" % (type(exc).__name__, _frame(exc)),
+                  "%r for %s (from %s)" % (exc, gots, ch.c))
             continue
         ok = False
-        same_type = [(c2, t2) for c2, t2 in back if t2 == ctype]
-        for c2, t2 in same_type:
+        same_expr = []
+        for c2, t2 in back:
             try:
                 e2 = expr_simp(hd.c_to_expr(c2))
             except Exception:
                 continue
             if e2 == gots:
-                ok = True
-                break
+                same_expr.append((c2, t2))
+                if t2 == ctype:
+                    ok = True
         if ok:
             rec.count("access:roundtrip_ok")
+            continue
+        kind = "array" if fdims else ("address" if ch.addr_of else "value")
+        what = "%s -> %s (type %s) -> %s" % (ch.c, gots, ctype, [(c2, str(t2)) for c2, t2 in back])
+        if same_expr and kind != "value":
+            # the address coincides with the start of an enclosing object (first member, element
+            # 0): only that object is reported, with its own type
+            afail("round trip reports only the enclosing object that starts at the same address (%s valued)" % kind,
+                  what)
         else:
-            kind = "array" if fdims else ("address" if ch.addr_of else "value")
-            rec.fail("round trip loses the access (%s valued)%s" % (kind, ftag),
-                     "%s -> %s (type %s) -> %s" % (ch.c, gots, ctype, [(c2, str(t2)) for c2, t2 in back]), w)
+            afail("round trip loses the access (%s valued)" % kind, what)
